@@ -49,6 +49,10 @@ def randgraph(
         if ensurelink:
             k = max(k, 1)
 
+        # never ask for more targets than there are vertices (the default
+        # connectivity exceeds 1 for very small graphs)
+        k = min(k, count)
+
         adj[verts[i]] = random.sample(verts, k)
 
     return adjlist.load_adj_dict(adj, linktype=edge)
